@@ -27,6 +27,7 @@ echo "$without" | grep -q "^ok" || { echo "RESULT demo-does-not-pass-without-cha
 echo "CONFIRMED: compiles, suite passes, demo fails with / passes without the change"
 for id in "$@"; do
   o=$(VERIF_REPO="$R" ./check $id $TIER 2>&1); rc=$?
+  if [ $rc -ne 0 ] && [ $(echo "$o" | grep -c '^VIOLATION') -eq 0 ]; then echo "  CRASH-OUTPUT: $(echo "$o" | tail -12 | tr '\n' '~' | cut -c1-1500)"; fi
   echo "REPLAYS: $(echo "$o" | grep '^VIOLATION' | sed -n 's/.*replay=\([^ ]*\).*/\1/p' | tr '\n' ' ')"
   echo "check $id $TIER: exit $rc; $(echo "$o" | grep -c '^VIOLATION') VIOLATION line(s): $(echo "$o" | grep '^VIOLATION' | head -2 | tr '\n' ' ' | cut -c1-220)"
 done
